@@ -108,7 +108,7 @@ fn grid_item(wmax: u64, i: u64, acc: &mut Acc) {
     let version = ((w + h) % 2) as u8;
     let q1 = ((w * 3 + h) % 31 + 1) as u8;
     let q2 = ((w + h * 5) % 31 + 1) as u8;
-    let mut st = H263State::new(options(Mode::Sorenson, false));
+    let mut st = H263State::new(options_scal(Mode::Sorenson, (w / 2 + h) % 2 == 1));
     let ipic = cheap_intra(Mode::Sorenson, version, size, q1, w + h);
     let ppic = cheap_inter(&ipic.hdr, q2, w * 3 + h);
     for (name, pic) in [("I", &ipic), ("P", &ppic)] {
@@ -163,6 +163,42 @@ fn std_custom_item(n: u64, i: u64, acc: &mut Acc) {
     }
 }
 
+/// Pictures with one or both dimensions far beyond the fixed formats (Sorenson 16-bit sizes):
+/// more than 2048 samples per line, more than 2040 lines, and more than 2^24 samples in all.
+const LARGE: [(u16, u16); 14] = [
+    (2049, 3), (2200, 18), (4100, 16), (16, 2042), (16, 2048), (18, 4100), (8, 8200), (65535, 1), (1, 65535), (40000, 9),
+    // above 2^24 samples (thorough tier only; about a second each)
+    (5001, 3357), (4097, 4099), (65535, 257), (257, 65535),
+];
+
+fn large_item(i: u64, acc: &mut Acc) {
+    let (w, h) = LARGE[i as usize];
+    let (w, h) = (w as usize, h as usize);
+    let size = Size::Custom16(w as u16, h as u16);
+    let mut st = H263State::new(options_scal(Mode::Sorenson, i % 3 == 0));
+    let ipic = cheap_intra(Mode::Sorenson, (i % 2) as u8, size, (i % 31 + 1) as u8, i as usize);
+    // P picture: every macroblock not coded (one bit each)
+    let mut ph = ipic.hdr.clone();
+    ph.ptype = PicType::P;
+    ph.tr = ph.tr.wrapping_add(1);
+    let (mbw, mbh) = ph.mb_dims().unwrap();
+    let ppic = Pic { hdr: ph, mbs: vec![Mb::not_coded(); mbw * mbh], trailing_zero_bits: 0 };
+    for (name, pic) in [("I", &ipic), ("P", &ppic)] {
+        let r = match decode_bytes(&mut st, &encode_pic(pic)) {
+            Outcome::Ok => postprocess(&st, w, h),
+            o => Err(format!("valid {} picture of {}x{} not decoded: {}", name, w, h, o.short())),
+        };
+        if let Err(m) = r {
+            acc.fail(json!({"kind":"params","large_index":i}), format!("{} picture {}x{}: {}", name, w, h, m));
+            return;
+        }
+        acc.count(true);
+    }
+    if i == 0 {
+        acc.sample(|| json!({"large_sizes": format!("{:?}", LARGE)}));
+    }
+}
+
 fn fixed_formats_suite() -> SuiteReport {
     simple_suite("fixed_formats", true, |acc| {
         let cases: Vec<(Mode, Size)> = vec![
@@ -179,7 +215,7 @@ fn fixed_formats_suite() -> SuiteReport {
         for (k, (mode, size)) in cases.iter().enumerate() {
             for q in [1u8, 16, 31] {
                 let (w, h) = size.dims().unwrap();
-                let mut st = H263State::new(options(*mode, false));
+                let mut st = H263State::new(options_scal(*mode, q == 16));
                 let ipic = cheap_intra(*mode, 0, *size, q, k);
                 let ppic = cheap_inter(&ipic.hdr, 32 - q, k);
                 for pic in [&ipic, &ppic] {
@@ -203,7 +239,8 @@ fn random_case(g: &mut Gen, cfg: &PicCfg) -> Verdict {
     let (mode, version) = gen_mode(g, cfg);
     let size = if mode == Mode::Sorenson && g.chance(1, 2) { Size::Custom16(g.range(1, cfg.max_dim as i64) as u16, g.range(1, cfg.max_dim as i64 * 3 / 4) as u16) } else { gen_size(g, mode, cfg) };
     let (w, h) = size.dims().unwrap();
-    let mut st = H263State::new(options(mode, false));
+    let scal = g.bool();
+    let mut st = H263State::new(options_scal(mode, scal));
     let ipic = gen_intra_pic_with(g, cfg, mode, version, size);
     let n = g.range(0, 2) as usize;
     let mut pics = vec![ipic.clone()];
@@ -240,6 +277,8 @@ pub fn run(ctx: &Ctx) -> i32 {
     reports.push(exhaustive_suite(ctx, "size_grid", gw * gh, &move |i, acc| grid_item(gw, i, acc)));
     let n = ctx.tier.pick(24u64, 72u64);
     reports.push(exhaustive_suite(ctx, "standard_custom_size_grid", n * n, &move |i, acc| std_custom_item(n, i, acc)));
+    let nlarge = ctx.tier.pick(10u64, 14u64);
+    reports.push(exhaustive_suite(ctx, "large_dimension_pictures", nlarge, &large_item));
     reports.push(fixed_formats_suite());
     let cfg = cfg_for(ctx.tier);
     let cases = ctx.tier.pick(30_000u64, 300_000u64);
@@ -279,6 +318,14 @@ pub fn replay(suite: &str, case: &Value) -> Option<Verdict> {
             let h = case["h"].as_u64()?;
             let mut acc = Acc::default();
             grid_item(1 << 20, (h - 1) * (1 << 20) + (w - 1), &mut acc);
+            Some(match acc.failure {
+                Some((_, _, m, _)) => Verdict::fail(m),
+                None => Verdict::pass(true, 0),
+            })
+        }
+        "large_dimension_pictures" => {
+            let mut acc = Acc::default();
+            large_item(case["large_index"].as_u64()?, &mut acc);
             Some(match acc.failure {
                 Some((_, _, m, _)) => Verdict::fail(m),
                 None => Verdict::pass(true, 0),
